@@ -3,6 +3,10 @@
 package vars
 
 // SimResetCache: see caching.(*ProgramCache).SimReset. Overlay-added by /verif.
-func SimResetCache(capacity int) { programCache.SimReset(capacity) }
+// Both encoder program caches (without / with the pointer-value flag) are reset.
+func SimResetCache(capacity int) {
+	programCache.SimReset(capacity)
+	programCachePV.SimReset(capacity)
+}
 
 func SimCacheStats() (int, int) { return programCache.SimStats() }
